@@ -101,6 +101,23 @@ Theorem C09_sqrtmp_5mod8 : forall a p b, prime p -> p mod 8 = 5 -> a <> 0 ->
 Proof. exact sqrtmp_5mod8. Qed.
 Print Assumptions C09_sqrtmp_5mod8.
 
+(* every odd prime (all classes modulo 8, Tonelli-Shanks loops included), every residue *)
+Theorem C09_sqrtmp_ok : forall a p b, prime p -> p <> 2 -> a <> 0 ->
+  powm a ((p - 1) / 2) p = 1 -> powm b ((p - 1) / 2) p = p - 1 ->
+  exists r, sqrtmp_with a p b = SqOk r /\ 0 <= r < p /\ (r * r) mod p = a mod p.
+Proof. exact sqrtmp_ok. Qed.
+Print Assumptions C09_sqrtmp_ok.
+
+(* every product of two odd primes (Blum or not), any Bezout pair: four roots and the chosen one square back *)
+Theorem C09_sqrtmn_two_primes_ok : forall a p q u v bp bq, prime p -> prime q -> p <> 2 -> q <> 2 -> a <> 0 ->
+  u * p + v * q = 1 ->
+  powm a ((p - 1) / 2) p = 1 -> powm bp ((p - 1) / 2) p = p - 1 ->
+  powm a ((q - 1) / 2) q = 1 -> powm bq ((q - 1) / 2) q = q - 1 ->
+  (exists r, sqrtmn_all_with a p q (p * q) u v bp bq = inl (Some r) /\ all_square a (p * q) r) /\
+  (exists r, sqrtmn_with a p q (p * q) u v bp bq = SqOk r /\ (r * r) mod (p * q) = a mod (p * q)).
+Proof. exact sqrtmn_two_primes_ok. Qed.
+Print Assumptions C09_sqrtmn_two_primes_ok.
+
 (* square roots modulo n = p*q: all four CRT roots (and the chosen smallest) square back, for any Bezout pair *)
 Theorem C09_sqrtmn_all_ok : forall a p q u v bp bq, 0 < p -> 0 < q -> u * p + v * q = 1 ->
   sqrt_ok a p bp -> sqrt_ok a q bq ->
@@ -128,10 +145,12 @@ Theorem C09_sqrtmp_all_primes_refuted : forall b, sqrtmp_with 1 2 b = SqDiverge.
 Proof. exact sqrtmp_modulus_2_diverges. Qed.
 Print Assumptions C09_sqrtmp_all_primes_refuted.
 
-Theorem C09_interpolate_one_partial : forall a b q, 1 < q ->
-  interpolate [(a, b)] q = IpOk [b mod q] /\ peval [b mod q] a q = b mod q.
-Proof. exact interpolate_one. Qed.
-Print Assumptions C09_interpolate_one_partial.
+(* interpolation: whenever the routine returns true (any modulus q > 1, any points, reduced or not), the
+   returned polynomial has one coefficient per point and passes through every point *)
+Theorem C09_interpolate_reproduces_points : forall q, 1 < q -> forall pts f, interpolate pts q = IpOk f ->
+  length f = length pts /\ forall a b, In (a, b) pts -> peval f a q = b mod q.
+Proof. exact interpolate_sound. Qed.
+Print Assumptions C09_interpolate_reproduces_points.
 
 (* non-vacuity *)
 Example C09_nonvacuous_spowm : spowm 2 7 7 = Ok 2 /\ spowm 2 3 9 = Ok 8 /\ spowm 3 (-2) 7 = Ok 4.
@@ -143,5 +162,7 @@ Proof.
   assert (n = 1 \/ n = 2 \/ n = 3 \/ n = 4 \/ n = 5 \/ n = 6 \/ n = 7 \/ n = 8 \/ n = 9 \/ n = 10 \/ n = 11 \/ n = 12) as C by lia.
   repeat (destruct C as [-> | C]; [reflexivity|]). subst n. reflexivity.
 Qed.
+Example C09_nonvacuous_interp : interpolate [(1, 2); (3, 1); (5, 6)] 7 = IpOk [3; 0; 6].
+Proof. vm_compute. reflexivity. Qed.
 Example C09_nonvacuous_blum : 3 * 7 + (-2) * 11 = -1 + 0 /\ (-3) * 7 + 2 * 11 = 1 /\ sqrtmn_fast 4 7 11 77 (-21) 22 2 3 = 9.
 Proof. repeat split; reflexivity. Qed.
